@@ -471,8 +471,12 @@ def case_newyear(mon, fi, years):
             mon.evals += 2
             t1, _e1 = call_finder(fi, j0 - 0.1)
             t2, _e2 = call_finder(fi, j0 + 0.1)
-        except Exception:
-            continue        # refusals are judged by the sweeps
+        except Exception as ex:
+            mon.dev("finder.no-exception",
+                    {"planet": planet, "finder": meth, "args": list(args),
+                     "query": j0, "new_year_of": y + 1, "raised": repr(ex)},
+                    key_event(planet, kind, None, ex, j0))
+            continue
         mon.check("order.never-backwards", t2 >= t1 - same,
                   lambda: {"planet": planet, "finder": meth,
                            "args": list(args), "new_year_of": y + 1,
